@@ -150,8 +150,11 @@ def clause2_atomic(ctx, P, cg):
         seq = [i for _, i in v.calls() if i.callee]
         order = [("WRITE" if _writes(P, cg, w, i) else P.srcname_of(i.callee)) for i in seq]
         try:
-            iw = max(k for k, n in enumerate(order) if n == "WRITE")
+            ws = [k for k, n in enumerate(order) if n == "WRITE"]
+            iw = max(ws) if ws else 0   # an empty database writes nothing; what is written precedes the sync
             isync = order.index("fsync", iw)
+            if any(k > isync for k in ws):
+                raise ValueError
             iren = order.index("rename", isync)
         except ValueError:
             bad = v
